@@ -247,8 +247,22 @@ def generator_text_workload(ctx):
         if res['exit'] is not None or res['exc'] is not None:
             ctx.cnt('generator_text_unobservable_run_failed')
             continue
-        calls = list(rec)
-        per_inst = 2 if v.get('twopl') else 1
+        # records are paired with instances BY FUNCTION: the i-th call of each list-producing function belongs to
+        # instance i, provided that function was called exactly once per instance (an implementation that builds
+        # one side of the lists some other way leaves that side unobserved here, which is reported, not judged)
+        firsts = [c for c in rec if c[0] == 'create_pref_lists_original']
+        seconds = [c for c in rec if c[0] == 'create_pref_lists_from_other_lists']
+        if len(firsts) != v['numinst']:
+            ctx.cnt('generator_text_unobservable_first_side_tap_not_once_per_instance')
+            continue
+        per_inst = 2 if (v.get('twopl') and len(seconds) == v['numinst']) else 1
+        if v.get('twopl') and per_inst == 1:
+            ctx.cnt('generator_text_second_side_tap_not_once_per_instance')
+        calls = []
+        for i in range(v['numinst']):
+            calls.append(firsts[i])
+            if per_inst == 2:
+                calls.append(seconds[i])
         na = ge.NA[mp]
         for i in range(v['numinst']):
             path = os.path.join(outdir, '%d.txt' % i)
